@@ -291,6 +291,13 @@ impl<'a> ExpressionLoweringManager<'a> {
       return_type: original_function_type.return_type.clone(),
     };
     let closure_type = self.get_synthetic_identifier_type_from_closure(original_function_type);
+    let inferred_targs =
+      self.type_lowering_manager.lower_source_types(self.heap, &expression.inferred_type_arguments);
+    let type_arguments = if let Some(id_type) = result_expr.type_().as_id() {
+      id_type.type_arguments.iter().cloned().chain(inferred_targs).collect_vec()
+    } else {
+      inferred_targs
+    };
     let closure_variable_name = self.allocate_temp_variable();
     bind_value(
       &mut self.variable_cx,
@@ -303,9 +310,7 @@ impl<'a> ExpressionLoweringManager<'a> {
       function_name: hir::FunctionNameExpression {
         name: function_name,
         type_: method_type,
-        type_arguments: self
-          .type_lowering_manager
-          .lower_source_types(self.heap, &expression.inferred_type_arguments),
+        type_arguments,
       },
       context: result_expr,
     });
